@@ -43,7 +43,9 @@ THOROUGH_COLUMNS = tuple(range(1, 121))
 TROUGH_COLUMNS = tuple(range(1, 25))
 BAD_CLASSES = (
     "row_Z", "col_0", "col_over", "letter_only", "digits_only", "double_letter", "lower", "row_beyond", "padding",
+    "trailing_nul",
 )
+KEY_NUL = "C08.trailing_nul_lost_in_numpy_array"
 OPS = ("aspirate", "dispense", "transfer_src", "transfer_dst", "distribute", "transfer_within_src", "transfer_within_dst",
        "evo_aspirate", "evo_dispense")
 FORMS = ("scalar", "list1", "bad_first", "bad_last")
@@ -156,6 +158,9 @@ def _bad_id(rng, lw, cls):
         return "%s%02d" % (ROWS[r].lower(), c + 1)
     if cls == "row_beyond":
         return None if nr >= 26 else "%s%02d" % (ROWS[nr], c + 1)
+    if cls == "trailing_nul":
+        # an existing id followed by NUL characters (a fixed-width field read from a binary file)
+        return "%s%02d" % (ROWS[r], c + 1) + "\x00" * rng.choice([1, 1, 3])
     if cls == "padding":
         if c + 1 < 10 and rng.random() < 0.5:
             return "%s%d" % (ROWS[r], c + 1)
@@ -607,7 +612,10 @@ def _run_unknown(ctx, case):
             # exactly the R record was emitted before Labware.add looked the destination id up
             key = KEY_DISTRIBUTE
 
-    if ctx.check("unknown_id_raises", exc is not None, det):
+    if case["cls"] == "trailing_nul" and exc is None:
+        # known finding K2: numpy's fixed-width strings drop trailing NULs, the operation sees the existing id
+        key = KEY_NUL
+    if ctx.check("unknown_id_raises", exc is not None, det, key=key if case["cls"] == "trailing_nul" else None):
         ctx.count("unknown_refused:" + op)
         ctx.count("unknown_refused_device:" + device)
         ctx.feature("unknown_exception", type(exc).__name__)
